@@ -122,7 +122,27 @@ func (e *Engine) solveAll(obls []*Obl, par int, timeout int, dump string) {
 			if dump != "" {
 				os.WriteFile(fmt.Sprintf("%s/o%d.smt2", dump, i), []byte(txt), 0o644)
 			}
-			o.Res = runSolvers(f, timeout, nil)
+			to := timeout
+			if o.Canary {
+				to = 1
+				if timeout > 30 {
+					to = 5
+				}
+			}
+			o.Res = runSolvers(f, to, nil)
+			if !o.Canary && !o.ExpectSat && o.Res.Status != "unsat" && o.Res.Status != "sat" && strings.Contains(txt, "(forall ") {
+				// undecided with quantified facts: look for a counterexample in the ground context (to be validated by replay)
+				o.GroundOnly = true
+				g := writeScratch(fmt.Sprintf("o%dg.smt2", i), o.script(true))
+				r2 := runSolvers(g, to, nil)
+				os.Remove(g)
+				if r2.Status == "sat" {
+					r2.Output = "ground-context model (quantified facts dropped); first attempt: " + o.Res.Status + "\n" + r2.Output
+					o.Res = r2
+				} else {
+					o.GroundOnly = false
+				}
+			}
 			os.Remove(f)
 		}(i, o)
 	}
@@ -130,6 +150,9 @@ func (e *Engine) solveAll(obls []*Obl, par int, timeout int, dump string) {
 }
 
 func (o *Obl) ok() bool {
+	if o.Canary {
+		return o.Res.Status != "unsat"
+	}
 	if o.ExpectSat {
 		return o.Res.Status == "sat"
 	}
@@ -146,6 +169,8 @@ func main() {
 	verbose := flag.Bool("v", false, "verbose")
 	par := flag.Int("j", 16, "parallel solver jobs")
 	list := flag.Bool("list", false, "list functions")
+	check := flag.Bool("check", false, "property check: ledger, known findings, replay, evidence; exit 1 on violation")
+	wl := flag.Bool("write-ledger", false, "write /verif/ledger/<prop>.txt from the obligations generated now")
 	flag.Parse()
 	defer cleanupScratch()
 
@@ -174,6 +199,15 @@ func main() {
 	if err := e.loadSpecs(); err != nil {
 		fmt.Fprintln(os.Stderr, "specs:", err)
 		os.Exit(2)
+	}
+	if *check || *wl {
+		if *prop == "" {
+			fmt.Fprintln(os.Stderr, "-check needs -prop")
+			os.Exit(2)
+		}
+		rc := e.checkProperty(*prop, *tier, *par, *wl)
+		cleanupScratch()
+		os.Exit(rc)
 	}
 	rr := e.generate(*prop, *only)
 	for _, er := range rr.errors {
